@@ -244,6 +244,77 @@ COV_DOCS = [
 ]
 
 
+ARGS = {("Query", "any"): ["", "(l: 2)", "(i: {y: [1]}, r: 7)", "(l: [$v, 1])", "(i: null, l: null)"],
+        ("Query", "opt"): ["", "(v: 3)", "(v: $v)"], ("Mutation", "m1"): ["", "(x: 2)", "(x: $v)"],
+        ("A", "any"): ["", "(s: \"t\")", "(i: {x: $v})"]}
+
+
+def random_doc(rng, types, root):
+    """a structured random document over `types` (valid most of the time; validation filters the rest)"""
+    frags = []
+
+    def dirs():
+        r = rng.random()
+        if r < 0.75:
+            return ""
+        return rng.choice([" @skip(if: false)", " @skip(if: true)", " @include(if: true)", " @include(if: false)",
+                           " @skip(if: $b)", " @include(if: $b)", " @skip(if: $b) @include(if: $b)"])
+
+    def selset(tn, depth):
+        kind, ifs, fields = types[tn]
+        items, used = [], set()
+        cands = list(fields) if kind != "union" else []
+        n = rng.randint(1, 3)
+        for _ in range(n):
+            r = rng.random()
+            if cands and r < 0.6:
+                f = rng.choice(cands)
+                ftype = named(fields[f][0])
+                if ftype in types and depth <= 0:
+                    continue
+                alias = ""
+                key = f
+                if rng.random() < 0.15:
+                    key = f + "2"
+                    alias = key + ": "
+                if key in used:
+                    continue
+                used.add(key)
+                args = rng.choice(ARGS.get((tn, f), [""]))
+                sub = " " + selset(ftype, depth - 1) if ftype in types else ""
+                items.append(f"{alias}{f}{args}{dirs()}{sub}")
+            elif r < 0.7:
+                if "__typename" not in used:
+                    used.add("__typename")
+                    items.append("__typename")
+            elif r < 0.9 and depth > 0:
+                cs = concrete(types, tn) + [i for c in concrete(types, tn) for i in types[c][1]] + ([tn] if kind != "union" else [])
+                cond = rng.choice(sorted(set(cs)))
+                inner = selset(cond, depth - 1)
+                items.append(f"... on {cond}{dirs()} {inner}" if rng.random() < 0.8 else f"...{dirs() or ' @include(if: true)'} {selset(tn, depth - 1)}" if kind != "union" else f"... on {cond} {inner}")
+            elif depth > 0 and len(frags) < 2 and kind != "union":
+                name = f"F{len(frags)}"
+                frags.append(None)
+                body = selset(tn, depth - 1)
+                frags[int(name[1:])] = f"fragment {name} on {tn} {body}"
+                items.append(f"...{name}{dirs()}")
+        if not items:
+            items.append("__typename")
+        return "{ " + " ".join(items) + " }"
+
+    body = selset(root, 3)
+    text = body + "".join(" " + f for f in frags if f)
+    decl = []
+    if "$b" in text:
+        decl.append("$b: Boolean!")
+    if "$v" in text:
+        decl.append("$v: Int")
+    op = "mutation" if root == "Mutation" else "query"
+    head = f"{op}({', '.join(decl)}) " if decl else ("mutation " if root == "Mutation" else "")
+    varss = ['{"b":true,"v":5}', '{"b":false}'] if decl else ["{}"]
+    return head + text, varss
+
+
 def worlds_for(ctx, types, ids, doc, root, limit, nrandom):
     sites = parse_sites(types, ids, doc, root)
     alphas = [alphabet(types, ids, types[o][2][f][0], False) for o, f in sites]
@@ -283,6 +354,25 @@ def gen_cases(ctx):
             for v in varss:
                 for w in ws:
                     cases.append((schema, doc, v, w))
+    # structured random documents
+    nrand_docs = 60 if ctx.tier == "quick" else 1500
+    seen = set()
+    for i in range(nrand_docs):
+        root = "Mutation" if i % 7 == 0 else "Query"
+        doc, varss = random_doc(ctx.rng, TYPES, root)
+        if doc in seen:
+            continue
+        seen.add(doc)
+        try:
+            ws, exhaustive, nsites = worlds_for(ctx, TYPES, OBJ_ID, doc, root, limit // 4, nrandom // 4)
+        except Exception:
+            continue       # the light site walker does not understand the text: skip the document
+        stats["documents"] += 1
+        stats["random_documents"] = stats.get("random_documents", 0) + 1
+        stats["max_sites"] = max(stats["max_sites"], nsites)
+        for v in varss:
+            for w in ws:
+                cases.append((SCHEMA, doc, v, w))
     return cases, stats
 
 
